@@ -7,6 +7,7 @@ pub mod c05;
 pub mod c11;
 pub mod c12;
 pub mod c13;
+pub mod c14;
 pub mod c15;
 
 pub fn get(id: &str) -> Option<Box<dyn Prop>> {
@@ -19,6 +20,7 @@ pub fn get(id: &str) -> Option<Box<dyn Prop>> {
     "C11" => Some(Box::new(c11::C11)),
     "C12" => Some(Box::new(c12::C12)),
     "C13" => Some(Box::new(c13::C13)),
+    "C14" => Some(Box::new(c14::C14)),
     "C15" => Some(Box::new(c15::C15)),
     _ => None,
   }
